@@ -237,9 +237,12 @@ def r2_sites(prog, rep: Report, ss: Cls, rule: str = "C10.R2", floor: int = 3):
                           c.lineno)
         # keep-iff-no-match: flag False + break inside the match; append both under the flag after the inner loop
         ok, why = _keep_iff_no_match(loop, inner, c, a, f)
-        rep.check(rule, f, role + ":keep-iff-no-match", ok, "span appended iff the scan over the kept spans found no match",
-                  why, scenario="SpanSet([(1,2),(1,2)]) keeps both spans, or drops a span that matches nothing",
-                  line=c.lineno)
+        if ok is None:
+            rep.unrec(rule, f, role + ":keep-iff-no-match", why, c.lineno)
+        else:
+            rep.check(rule, f, role + ":keep-iff-no-match", ok, "span appended iff the scan over the kept spans found no match",
+                      why, scenario="SpanSet([(1,2),(1,2)]) keeps both spans, or drops a span that matches nothing",
+                      line=c.lineno)
 
 
 def _is_component(e, name: str, i: int, flow: Flow) -> bool:
@@ -311,7 +314,7 @@ def _new_span_pair(loop: ast.For, a0, a1, f: Func) -> Optional[str]:
 
 def _keep_iff_no_match(loop, inner, call, args, f: Func) -> Tuple[bool, str]:
     if loop is None or inner is None:
-        return False, "the eq_relation call is not inside a scan loop nested in the loop over the new spans"
+        return None, "the eq_relation call is not inside a scan loop nested in the loop over the new spans"
     # inner loop ranges over all spans kept so far
     rng = src(inner.iter)
     if not ("len(self.starts)" in rng or "self.starts" in rng):
@@ -322,11 +325,11 @@ def _keep_iff_no_match(loop, inner, call, args, f: Func) -> Tuple[bool, str]:
     # scan's else clause
     iff = getattr(call, "_parent", None)
     if not (isinstance(iff, ast.If) and iff.test is call):
-        return False, "the relation result is not the test of the match branch"
+        return None, "the relation result is not the test of the match branch"
     if not (iff.body and isinstance(iff.body[-1], ast.Break)) or iff.orelse:
         return False, "a match does not end the scan with a break (keep-flag idiom / for-else not recognised)"
     if iff not in inner.body:
-        return False, "the match test is not a direct statement of the scan loop"
+        return None, "the match test is not a direct statement of the scan loop"
     if any(isinstance(x, (ast.Break, ast.Continue, ast.Return)) for st in inner.body if st is not iff for x in ast.walk(st)):
         return False, "the scan can end or skip for another reason than a match"
     body = loop.body
